@@ -41,7 +41,7 @@ def signature(case, ck, log, fault):
 
 
 def plan(tier, seed):
-    return F.std_plan(tier, seed, 2000, 60000)
+    return F.std_plan(tier, seed, 6000, 80000)
 
 
 def run_shard(desc):
